@@ -40,6 +40,7 @@ NoSplice == \A j \in 1..Len(hist) : hist[j].a = "present" => hist[j].proof # "sp
 Sure(i) == /\ sends[i].sure
            /\ Weak = {}
            /\ NoSplice
+           /\ (sends[i].lk /\ kind = "p2pke") => Fam # "mixed"     \* a random walk interleaves held handshakes freely
            /\ kind = "p2pke" => \A j \in 1..Len(sends) : sends[j].st = "err" => PairOf(j) # PairOf(i)
 DlOf(i) == {d \in dlv : d.p = i}
 Exp == [i \in 1..Len(sends) |->
